@@ -200,7 +200,7 @@ class Runner:
             except (CaseTimeout, MachineryError):
                 raise
             except Exception as ex:
-                rec["out"] = type(ex).__name__
+                rec["out"] = exc_name(ex)
                 res = None
         if op in ("get", "getd", "len"):
             rec["res"] = res if res is not None else 0
@@ -209,6 +209,18 @@ class Runner:
         elif op == "iter":
             rec["res"] = res if res is not None else []
         return rec
+
+
+KNOWN_EXC = ("KeyError", "ValueError", "TypeError", "FileExistsError", "FileNotFoundError")
+
+
+def exc_name(ex):
+    """the nearest of the built-in classes the specification knows among the exception's classes (a subclass of ValueError IS a
+    ValueError); "Error" for anything else"""
+    for c in type(ex).__mro__:
+        if c.__name__ in KNOWN_EXC:
+            return c.__name__
+    return "Error"
 
 
 def concretise(case):
